@@ -78,6 +78,8 @@ pub struct Tr<'a> {
     pub partial: bool,
     /// set when a panicking construct / a call of a partial function is met while `partial` is false (retried as partial)
     pub needs_partial: bool,
+    /// values of the abstracted items of the callee of a trait-qualified static call (`Trait::<A>::f(..)`): (callee key, values)
+    pub assoc_override: std::cell::RefCell<Option<(String, Vec<String>)>>,
     /// the kinds of panic sites translated in this function (`assert!`, `slice index`, `call of f`, ..)
     pub panic_sites: BTreeSet<String>,
     /// names of variables / struct fields of slice (list) type: `name[i]` on them can panic (for the syntactic effect analysis)
@@ -551,8 +553,15 @@ impl<'ast, 'm> Visit<'ast> for EffVisitor<'m> {
                 } else {
                     self.fuel_names.contains(&n)
                 };
+                // `Trait::<A>::name(..)` resolved to the impl of the current Self type (trait-qualified static call)
+                let via_trait = segs.len() >= 2 && segs[segs.len() - 2] != "Self" && self.self_name.is_some();
+                let hit = hit || (via_trait && self.fuel_names.contains(&format!("{}::{}", self.self_name.as_ref().unwrap(), n)) && segs[segs.len() - 2].chars().next().map_or(false, |c| c.is_uppercase()) && matches!(p.path.segments[segs.len() - 2].arguments, PathArguments::AngleBracketed(_)));
                 if hit {
                     self.eff.ret = true;
+                }
+                if via_trait && matches!(p.path.segments[segs.len() - 2].arguments, PathArguments::AngleBracketed(_)) {
+                    let k2 = format!("{}::{}", self.self_name.as_ref().unwrap(), n);
+                    self.mutargs(&k2, i.args.iter());
                 }
                 let key = if segs.len() >= 2 && segs[segs.len() - 2] != "Self" {
                     format!("{}::{}", segs[segs.len() - 2], n)
